@@ -65,6 +65,8 @@ var (
 	tMBin    = reflect.TypeOf(MBin{})
 	tMBinArr = reflect.TypeOf(MBinArr{})
 	tEmpty   = reflect.TypeOf(Empty{})
+
+	tNetworkFlags = reflect.TypeOf(gen.NetworkFlags{})
 )
 
 // typePool: the types values are drawn from
@@ -681,6 +683,15 @@ func (g *gctx) fill(v reflect.Value) {
 		return
 	case tMEDFStr:
 		v.SetString(g.fillText(g.rng.Intn(20), true))
+		return
+	case tNetworkFlags:
+		// custom marshaler of the framework: with Enable == false the other flags are not transported (by design,
+		// "Enable enables flags customization"): only canonical values are generated
+		if g.rng.Intn(3) != 0 {
+			bits := g.rng.Intn(64)
+			v.Set(reflect.ValueOf(gen.NetworkFlags{Enable: true, EnableRemoteSpawn: bits&1 != 0, EnableRemoteApplicationStart: bits&2 != 0, EnableFragmentation: bits&4 != 0,
+				EnableProxyTransit: bits&8 != 0, EnableProxyAccept: bits&16 != 0, EnableImportantDelivery: bits&32 != 0}))
+		}
 		return
 	case tMBin:
 		v.Set(reflect.ValueOf(MBin{A: g.genInt(64), S: g.fillText(g.rng.Intn(20), true), x: uint8(g.rng.Intn(200))}))
